@@ -17,7 +17,8 @@ RULE = (
     "random episode-start and final-done patterns, kept only when every float32 intermediate of the backward loop is "
     "exactly representable so implementation and Rat model must agree bit for bit; (gae_float) random float32 inputs, "
     "T<=24, n<=6, compared with the exact Rat model at 1e-4 relative; (get) tagged rollouts, T<=9, n<=5, batch sizes "
-    "None / dividing / non-dividing / larger than the rollout, 1-3 passes, array and Dict observations. "
+    "None / dividing / non-dividing / larger than the rollout, 1-3 passes, array and Dict observations; every case may be "
+    "preceded by 0-2 earlier rollouts (reset / fill / compute / optional pass of get) on the SAME buffer object. "
     "non-trivial = gae case with a mid-rollout episode boundary in one env and a non-done last step in another (or the "
     "same) env, or get case whose batch size does not divide T*n; distinct = distinct canonical case"
 )
@@ -67,6 +68,23 @@ def exact_ok(case) -> bool:
     return True
 
 
+def gen_prelude(rng, T, n):
+    """0-2 earlier rollouts run on the SAME buffer object before the checked one (reset / fill / compute / maybe a
+    pass of get): the result of a rollout must not depend on what the buffer held before."""
+    k = rng.weighted([(0, 4), (1, 4), (2, 2)])
+    out = []
+    for _ in range(k):
+        out.append({
+            "rewards": [[rng.randint(-4, 4) for _ in range(n)] for _ in range(T)],
+            "values": [[rng.randint(-4, 4) for _ in range(n)] for _ in range(T)],
+            "starts": [[int(rng.chance(0.3)) for _ in range(n)] for _ in range(T)],
+            "last_values": [rng.randint(-4, 4) for _ in range(n)],
+            "dones": [int(rng.chance(0.3)) for _ in range(n)],
+            "get": rng.choice([None, 0, 1, 3]),
+        })
+    return out
+
+
 def gen_gae_exact(rng, widen):
     while True:
         T = rng.randint(1, 6)
@@ -87,6 +105,7 @@ def gen_gae_exact(rng, widen):
             "kind": "gae_exact",
             "T": T,
             "n": n,
+            "prelude": gen_prelude(rng, T, n),
             "dict": rng.chance(0.3),
             "gamma": ratj(g),
             "lam": ratj(l),
@@ -111,6 +130,7 @@ def gen_gae_float(rng, widen):
         "kind": "gae_float",
         "T": T,
         "n": n,
+        "prelude": gen_prelude(rng, T, n),
         "dict": rng.chance(0.3),
         "gamma": float(rng.choice([0.99, 0.9, 0.5, 1.0, 0.999])),
         "lam": float(rng.choice([0.95, 1.0, 0.9, 0.0, 0.5])),
@@ -130,7 +150,7 @@ def gen_get(rng, widen):
         [(None, 2), (N, 1), (1, 1), (rng.randint(1, N), 4), (N + rng.randint(1, 5), 1), (max(1, N - 1), 1)]
     )
     return {"kind": "get", "T": T, "n": n, "batch": b, "dict": rng.chance(0.4), "passes": rng.randint(1, 3),
-            "npseed": rng.randint(0, 2**31 - 1)}
+            "npseed": rng.randint(0, 2**31 - 1), "prelude": gen_prelude(rng, T, n)}
 
 
 def gen_buf(rng, widen):
@@ -154,6 +174,11 @@ def gen_cases(ctx):
 
 def shrink_candidates(case):
     k = case.get("kind")
+    if case.get("prelude"):
+        for i in range(len(case["prelude"])):
+            c = dict(case)
+            c["prelude"] = [p for j, p in enumerate(case["prelude"]) if j != i]
+            yield c
     if k in ("gae_exact", "gae_float"):
         T, n = case["T"], case["n"]
         if T > 1:
@@ -162,6 +187,8 @@ def shrink_candidates(case):
                 c["T"] = T - 1
                 for f in ("rewards", "values", "starts"):
                     c[f] = [r for i, r in enumerate(case[f]) if i != t]
+                c["prelude"] = [dict(p, **{f: [r for i, r in enumerate(p[f]) if i != t] for f in ("rewards", "values", "starts")})
+                                for p in case.get("prelude") or []]
                 yield c
         if n > 1:
             for e in range(n):
@@ -171,12 +198,16 @@ def shrink_candidates(case):
                     c[f] = [[x for j, x in enumerate(r) if j != e] for r in case[f]]
                 for f in ("last_values", "dones"):
                     c[f] = [x for j, x in enumerate(case[f]) if j != e]
+                c["prelude"] = [dict(p, **{f: [[x for j, x in enumerate(r) if j != e] for r in p[f]] for f in ("rewards", "values", "starts")},
+                                     **{f: [x for j, x in enumerate(p[f]) if j != e] for f in ("last_values", "dones")})
+                                for p in case.get("prelude") or []]
                 yield c
     elif k == "get":
         for f in ("T", "n", "passes"):
             if case[f] > 1:
                 c = dict(case)
                 c[f] = case[f] - 1
+                c["prelude"] = []
                 yield c
         if case.get("dict"):
             c = dict(case)
@@ -222,6 +253,18 @@ def fill(buf, case, rewards, values, starts, is_dict, tagged):
         )
 
 
+def run_prelude(buf, case):
+    import torch as th
+
+    for pre in case.get("prelude") or []:
+        fill(buf, case, pre["rewards"], pre["values"], pre["starts"], case["dict"], tagged=False)
+        buf.compute_returns_and_advantage(th.tensor(pre["last_values"], dtype=th.float32), np.array(pre["dones"], dtype=bool))
+        if pre.get("get") is not None:
+            for _ in buf.get(pre["get"] or None):
+                pass
+        buf.reset()
+
+
 def oracle_adv(case, g, l, to):
     """the definition: sum_l (g*l)^l * prod nnt * delta, cut at boundaries; computed with `to` numbers"""
     T, n = case["T"], case["n"]
@@ -265,6 +308,7 @@ def run_gae(ctx, case):
     else:
         gq, lq = F(case["gamma"]), F(case["lam"])
     buf = make_buffer(T, n, case["dict"], float(gq), float(lq))
+    run_prelude(buf, case)
     fill(buf, case, case["rewards"], case["values"], case["starts"], case["dict"], tagged=False)
     buf.compute_returns_and_advantage(th.tensor(case["last_values"], dtype=th.float32), np.array(case["dones"], dtype=bool))
     adv = np.array(buf.advantages, dtype=np.float64).reshape(T, n)
@@ -343,6 +387,7 @@ def run_get(ctx, case):
     """returns list of passes; each pass = list of batches; each batch = list of per-sample dict field->(t,e)"""
     T, n = case["T"], case["n"]
     buf = make_buffer(T, n, case["dict"], 0.0, 1.0)
+    run_prelude(buf, case)
     # gamma = 0  =>  advantage = reward - value, return = reward: choose reward = 3*tag, value = tag
     rewards = [[3 * tag(t, e, T) for e in range(n)] for t in range(T)]
     starts = [[0] * n for _ in range(T)]
@@ -479,6 +524,7 @@ def check_cases(ctx, cases):
             nt = nontrivial_gae(case)
             rep.case(case, case if nt else None)
             rep.count(f"T={case['T']}")
+            rep.count(f"prelude_rollouts={len(case.get('prelude') or [])}")
             rep.count("dict" if case["dict"] else "array")
             if r is None:
                 continue
